@@ -23,6 +23,9 @@ type mutant struct {
 	Find     string `json:"find"`
 	Replace  string `json:"replace"`
 	Note     string `json:"note"`
+	// ExtraFind/ExtraReplace: a second edit in the same file (an import, a variable)
+	ExtraFind    string `json:"extra_find,omitempty"`
+	ExtraReplace string `json:"extra_replace,omitempty"`
 	Patch    string `json:"patch,omitempty"` // alternatively: a unified diff under /verif (seeded/<id>/patch.diff)
 	// ExpectMiss marks a change that lies outside what the check claims to decide
 	// (kept in the matrix so that the limit stays visible); Why says which limit.
@@ -85,7 +88,14 @@ func mutantCopy(m mutant) (string, error) {
 	if n := strings.Count(string(raw), m.Find); n != 1 {
 		return dir, fmt.Errorf("mutant %s: pattern occurs %d times in %s (want exactly 1)", m.ID, n, m.File)
 	}
-	return dir, os.WriteFile(p, []byte(strings.Replace(string(raw), m.Find, m.Replace, 1)), 0o644)
+	out := strings.Replace(string(raw), m.Find, m.Replace, 1)
+	if m.ExtraFind != "" {
+		if n := strings.Count(out, m.ExtraFind); n != 1 {
+			return dir, fmt.Errorf("mutant %s: extra pattern occurs %d times in %s (want exactly 1)", m.ID, n, m.File)
+		}
+		out = strings.Replace(out, m.ExtraFind, m.ExtraReplace, 1)
+	}
+	return dir, os.WriteFile(p, []byte(out), 0o644)
 }
 
 var reViolLine = regexp.MustCompile(`(?m)^VIOLATION property=(\S+) replay=(\S+)`)
